@@ -84,7 +84,7 @@ def evaluate(patch):
 def harvest(src):
     pid = os.path.basename(src.rstrip('/'))
     out = os.path.join(src, 'out')
-    for x in ('A', 'B', 'C', 'D', 'E', 'F', 'G', 'H', 'I', 'J', 'K', 'L', 'M', 'N', 'O', 'P', 'Q', 'R'):
+    for x in ('A', 'B', 'C', 'D', 'E', 'F', 'G', 'H', 'I', 'J', 'K', 'L', 'M', 'N', 'O', 'P', 'Q', 'R', 'S', 'T', 'U', 'V', 'W'):
         patch, demo, meta = (os.path.join(out, '%s%s' % (x, s)) for s in ('.diff', '_demo.py', '_meta.json'))
         if not (os.path.exists(patch) and os.path.exists(demo)):
             continue
